@@ -63,6 +63,7 @@ OVERLAY_FILES = {
     "internal/pkg/utils/zz_verif_runner_test.go": "harness/utils/runner_test.go",
     "internal/pkg/midi/zz_verif_runner_test.go": "harness/midi/runner_test.go",
     "cmd/hidi/zz_verif_runner_test.go": "harness/hidi/runner_test.go",
+    "cmd/hidi/zz_verif_template_test.go": "harness/hidi/template_test.go",
     # the cgo ALSA driver cannot compile here (no asoundlib.h); nothing under test lives in it
     "internal/pkg/midi/driver/alsa/alsa.go": "harness/alsa/alsa.go",
 }
